@@ -262,10 +262,12 @@ func (s *fsm12) finish(ctx context.Context, c Conn) (State, error) {
 				"isRetransmit", state.IsRetransmit)
 		}
 		close(state.Done)
-		if s.state.IsClient {
+		if s.state.IsClient && !s.currentFlight.IsLastSendFlight() {
 			return StateFinished, nil
 		}
 
+		// The peer retransmitted: it has not seen our last flight yet. This applies to the
+		// server of a full handshake (Flight 6) and to the client of a resumed one (Flight 5b).
 		return StateSending, nil
 	case <-ctx.Done():
 		return StateErrored, ctx.Err()
